@@ -68,7 +68,47 @@ def guard_mentions(guards, needle, polarity=None):
         if g[0] == "if":
             if needle in show(g[1], 0) and (polarity is None or g[2] == polarity):
                 return True
+        if g[0] == "arm":
+            # `match &self.synthetic_data { Some(sd) => <here>, None => .. }`: the Some arm is the branch where the option is present
+            m, arm = g[1], g[1]["arms"][g[2]]
+            if needle in show(m["e"], 0):
+                is_some = any(p["k"] == "tuplestruct" and p["path"]["segs"][-1] == "Some" for p in walk(arm["pat"]))
+                is_lit = needle.split("::")[-1] in show(arm["pat"], 0)
+                pol = True if (is_some or is_lit) else None
+                if pol is not None and (polarity is None or pol == polarity):
+                    return True
     return False
+
+
+def option_guards(body, node):
+    """pseudo `if` guards for a node that sits in a closure run only for the payload of an Option:
+    `self.synthetic_data.as_ref().map(|sd| <node>)` (also and_then / into_iter().map / iter().for_each ..) executes <node> only when the option is Some."""
+    out = []
+
+    def rec(n, stack):
+        if n is node:
+            for i, anc in enumerate(stack):
+                if anc.get("k") == "closure" and i > 0:
+                    call = stack[i - 1]
+                    if call.get("k") == "mcall" and call["m"] in ("map", "and_then", "for_each", "filter_map", "flat_map", "map_or", "map_or_else", "into_iter", "iter") and any(a is anc for a in call["args"]):
+                        r = call["recv"]
+                        while r.get("k") == "mcall" and r["m"] in ("as_ref", "as_deref", "iter", "into_iter", "clone", "cloned", "as_mut"):
+                            r = r["recv"]
+                        if r.get("k") in ("field", "path", "mcall"):
+                            out.append(("if", r, True))
+            return True
+        if isinstance(n, dict):
+            for v in n.values():
+                if isinstance(v, (dict, list)) and rec(v, stack + [n] if "k" in n else stack):
+                    return True
+        elif isinstance(n, list):
+            for x in n:
+                if rec(x, stack):
+                    return True
+        return False
+
+    rec(body, [])
+    return tuple(out)
 
 
 def extract_rules(src, rep):
@@ -92,7 +132,17 @@ def extract_rules(src, rep):
                 el = vec_elems(a[0])
                 ins = None if el is None else [prop_name(e) for e in el]
                 out = prop_name(a[1])
-                pk = params_kind(a[2])
+                a2 = a[2]
+                for _ in range(3):  # `let parameters = Parameters::PrivacyUnit(..);` shared by several rows (`parameters.clone()`)
+                    while a2["k"] == "mcall" and a2["m"] == "clone" and not a2["args"]:
+                        a2 = a2["recv"]
+                    if a2["k"] == "path" and len(a2["segs"]) == 1:
+                        ls = [l for l in find(f.body, "let") if l["pat"]["k"] == "ident" and l["pat"]["name"] == a2["segs"][0] and not l["pat"].get("mut") and l.get("init") is not None]
+                        if len(ls) == 1:
+                            a2 = ls[0]["init"]
+                            continue
+                    break
+                pk = params_kind(a2)
                 if ins is None or None in ins or out is None or pk is None:
                     rep.undecidable(
                         "T1",
@@ -101,7 +151,7 @@ def extract_rules(src, rep):
                         "src/%s:%d" % (RR, n["l"]),
                     )
                     continue
-                rules.append(Rule(k, ins, out, pk, guards, n, f))
+                rules.append(Rule(k, ins, out, pk, tuple(guards) + option_guards(f.body, n), n, f))
     return rules, byname
 
 
@@ -294,7 +344,11 @@ def t2(rep, src, rules):
         necessary="a PUP/DP row that reaches the pass-through arm rebuilds the original node over the rewritten input: the aggregate is released un-noised / the unit columns are lost",
     )
     fns = src.find_fns(file=RR, trait_re=r"^RewriteVisitor", self_ty_re=r"^Rewriter")
-    byname = {f.name: f for f in fns}
+    from .canon import canon_view
+
+    # canonical form: `if let (pattern) = (inputs, output, parameters) { .. } else { .. }` as the two-arm match, a named scrutinee (`let signature = (..); match signature`)
+    # and private constructor helpers (`self.privacy_unit_tracking(pu, strategy)` = PrivacyUnitTracking::new(..)) read through
+    byname = {f.name: canon_view(f, src, iflet=True) for f in fns}
     for k in KINDS:
         if k not in byname:
             raise Anchor("impl RewriteVisitor for Rewriter: method `%s` not found" % k)
@@ -368,13 +422,14 @@ def t2(rep, src, rules):
                 ]
             else:
                 want = r.kind
-            put = [c for c in calls if c["m"] == want and recv_root(c)["k"] == "path"]
+            is_put = lambda c: recv_root(c)["k"] == "path" or is_call_to(recv_root(c), "PrivacyUnitTracking::new")  # a named tracker, or the constructor itself once the local is read through
+            put = [c for c in calls if c["m"] == want and is_put(c)]
             # the receiver must be a PrivacyUnitTracking value built in the arm
             built = [x for x in walk(body) if is_call_to(x, "PrivacyUnitTracking::new")]
             if not put or not built:
                 rep.violation("T2", key, "rule %s is not rewritten by PrivacyUnitTracking::%s (calls in arm: %s)" % (r.text(), want, sorted(set(names))), where)
             others = {"join", "join_left_published", "join_right_published"} - {want}
-            if r.kind == "join" and any(c["m"] in others and recv_root(c)["k"] == "path" and recv_root(c)["p"].startswith("privacy_unit_tracking") for c in calls):
+            if r.kind == "join" and any(c["m"] in others and ((recv_root(c)["k"] == "path" and recv_root(c)["p"].startswith("privacy_unit_tracking")) or is_call_to(recv_root(c), "PrivacyUnitTracking::new")) for c in calls):
                 rep.violation("T2", key, "rule %s is dispatched to the tracking method of the wrong side" % r.text(), where)
         elif r.kind == "table" and r.output == "SyntheticData":
             if not any(c["m"] == "table" for c in calls) or "synthetic_data" not in show(body, 0):
@@ -414,37 +469,20 @@ def t3(rep, src):
         "rewrite_with_differential_privacy": {"Public", "Published", "DifferentiallyPrivate", "SyntheticData"},
         "rewrite_as_privacy_unit_preserving": {"Public", "PrivacyUnitPreserving"},
     }
+    from .util_accept import acceptance, Undecided as _Und
+
     for name, ok in allowed.items():
         f = src.one_fn(name=name, file="rewriting/mod.rs")
-        found = False
-        for m in find(f.body, "match"):
-            e = m["e"]
-            if not (e["k"] == "mcall" and e["m"] == "output"):
-                continue
-            found = True
-            accepted = set()
-            for a in m["arms"]:
-                body = a["body"]
-                is_none = path_of(body) == "None" or (body["k"] == "block" and len(body["stmts"]) == 1 and path_of(body["stmts"][0].get("e")) == "None")
-                if is_none:
-                    continue
-                pats = a["pat"]["cases"] if a["pat"]["k"] == "or" else [a["pat"]]
-                for p in pats:
-                    pn = prop_name(p)
-                    if pn is None:
-                        rep.violation("T3", name + "@" + show(p, 40), "non-rejecting arm with a pattern that is not a Property literal: %s" % show(p), "src/rewriting/mod.rs:%d" % a["l"])
-                    else:
-                        accepted.add(pn)
-            rep.instance("T3", name, {"entry": name, "accepted": sorted(accepted)})
-            for x in sorted(accepted - ok):
-                rep.violation("T3", name + "@" + x, "%s accepts a root labelled %s" % (name, x), f.where())
-            # the rewriting must be applied under that filter: the only `.rewrite(` call is inside an accepting arm
-            for n, guards in walk_guards(f.body):
-                if n["k"] == "mcall" and n["m"] == "rewrite":
-                    if not any(g[0] == "arm" and g[1] is m for g in guards):
-                        rep.violation("T3", name + "@rewrite", "a rewriting is produced outside the acceptance filter", "src/rewriting/mod.rs:%d" % n["l"])
-        if not found:
-            rep.undecidable("T3", name + "@filter", "no `match <rule>.output()` acceptance filter found in %s" % name, f.where())
+        try:
+            accepted, outside, stages = acceptance(f, src)  # the filter / filter_map / map chain over the candidates, evaluated for every root label
+        except _Und as u:
+            rep.undecidable("T3", name + "@filter", "cannot evaluate the acceptance filter of %s as a function of the root label: %s" % (name, u), f.where())
+            continue
+        rep.instance("T3", name, {"entry": name, "accepted": sorted(accepted), "stages": stages})
+        for x in sorted(accepted - ok):
+            rep.violation("T3", name + "@" + x, "%s accepts a root labelled %s" % (name, x), f.where())
+        if outside:
+            rep.violation("T3", name + "@rewrite", "a rewriting is produced outside the acceptance filter", f.where())
 
 
 def t4(rep, rules):
@@ -484,7 +522,9 @@ def t6(rep, src):
         floor=1,
         necessary="with a fallback to table.path() the 'synthetic' table IS the protected table: every SD-labelled derivation releases raw protected rows with a no-op privacy event",
     )
-    f = src.one_fn(name="table", file="synthetic_data/mod.rs", self_ty="SyntheticData")
+    from .canon import canon_view
+
+    f = canon_view(src.one_fn(name="table", file="synthetic_data/mod.rs", self_ty="SyntheticData"), src, helpers=False)  # `let synthetic_path = <lookup>?;` used once is read through
     tparam = [p["pat"]["name"] for p in f.params if not p.get("self") and "Table" in p["ty"] and p["pat"]["k"] == "ident"]
     paths = [m for m in find(f.body, "mcall") if m["m"] == "path" and m["args"]]
     # the builder's .path(..) call: receiver chain rooted at Relation::table()
@@ -558,13 +598,29 @@ def run(rep):
     rep.assume("rustc accepts the tree (the syn facts are parsed from the same files the build uses)")
     rep.assume("RewritingRule values are only created by RewritingRulesSetter (checked: RewritingRule::new call sites outside tests)")
     # who-may-call: RewritingRule::new outside the setter (non-test)
-    rep.rule("T0", "RewritingRule::new is called only inside impl SetRewritingRulesVisitor for RewritingRulesSetter (non-test code)", floor=30)
+    rep.rule(
+        "T0",
+        "RewritingRule::new is called only inside impl SetRewritingRulesVisitor for RewritingRulesSetter, or in a private one-expression constructor helper of RewritingRulesSetter that is "
+        "called only from that impl (its rows are read through at each call: they are rows of the table above) - non-test code",
+        floor=30,
+    )
+    for r in rules:
+        rep.instance("T0", "row:" + r.key(), None)
+
+    def setter_fn(g):
+        return g.file == RR and (g.trait or "").startswith("SetRewritingRulesVisitor") and (g.self_ty or "").startswith("RewritingRulesSetter")
+
     for f in src.fns:
         if f.test:
             continue
         for n in find(f.body or {}, "call"):
             if is_call_to(n, "RewritingRule::new"):
-                inside = f.file == RR and (f.trait or "").startswith("SetRewritingRulesVisitor") and (f.self_ty or "").startswith("RewritingRulesSetter")
-                rep.instance("T0", "%s@%d" % (f.qual, n["l"]), None)
+                inside = setter_fn(f)
+                if not inside and f.file == RR and (f.self_ty or "").startswith("RewritingRulesSetter") and not f.trait and (f.node.get("vis") or "") in ("", "pub(self)"):
+                    # a constructor helper: one expression (so that the rule extraction inlines it) and no caller outside the setter's visitor impl
+                    b_ = f.body
+                    one = b_ is not None and len(b_["stmts"]) == 1 and b_["stmts"][0]["k"] == "expr"
+                    callers = [g for g in src.fns if not g.test and g.body and g is not f and any(x["k"] == "mcall" and x["m"] == f.name for x in walk(g.body))]
+                    inside = one and callers and all(setter_fn(g) for g in callers)
                 if not inside:
                     rep.violation("T0", f.qual, "RewritingRule::new called outside the rule setter: the rule table is no longer closed", "src/%s:%d" % (f.file, n["l"]))
